@@ -45,9 +45,9 @@ func appendParts(call *ssa.Call) (base ssa.Value, elems []ssa.Value) {
 
 func checkC14(c *Ctx) {
 	c.Rule("R14.1", "no silent drop: every loop exit advances by what it read and accounts for it", 6)
-	c.Rule("R14.2", "representation: typed Field as is, first bare error via zap.Error, pairs via zap.Any; first-error flag only on the bare-error path", 5)
-	c.Rule("R14.3", "routing table of the sugared methods: level, slots, helper", 34)
-	c.Rule("R14.4", "message construction: Sprintln minus its last byte; template / Sprintf / Sprint", 4)
+	c.Rule("R14.2", "representation: typed Field as is, first bare error via zap.Error, pairs via zap.Any; first-error flag only on the bare-error path", 3)
+	c.Rule("R14.3", "routing table of the sugared methods: level, slots, helper", 21)
+	c.Rule("R14.4", "message construction: Sprintln minus its last byte; template / Sprintf / Sprint", 3)
 
 	fn := c.Method(ZapPath, "SugaredLogger", "sweetenFields")
 	if !c.Anchor("R14.1", "zap.SugaredLogger.sweetenFields", fn != nil) {
